@@ -416,7 +416,7 @@ func vfSWCheck(sc vfSWScheme, s1, s2 []uint8, setGaps, enum, masked bool) {
 	}
 	r := vfSWRun(sc, s1, s2, setGaps)
 	verifReach("aligned")
-	verifObserve("shape", len(r.r1), len(r.r2), r.st1, r.en1, r.st2, r.en2)
+	verifObserve("input, rows, starts, ends", s1, s2, r.r1, r.r2, r.st1, r.st2, r.en1, r.en2)
 	vfSWStructure(r, s1, s2)
 	if opt > 0 {
 		verifReach("positive optimum")
@@ -503,15 +503,66 @@ func H_C09_sw_mm4() {
 }
 
 // H_C09_sw_mm_masked: H_C09_sw_mm + H_C09_sw_mm3 outside the regions of the known defects D1-D3 (see vfSWMask).
-// bounds: lengths l1,l2 in 1..3; residues and scheme as H_C09_sw_mm
-// outside: inputs whose optimum is only reached in the first row/column of the matrix (D1); gapopen < 2*gapextend together with match+gapopen > 0 (D3); runs whose returned first column scores negative (D2)
+// bounds: lengths l1,l2 in 2..3; residues and scheme as H_C09_sw_mm
+// outside: inputs whose optimum is only reached in the first row/column of the matrix (D1); gapopen < 2*gapextend together with match+gapopen > 0 (D3); runs whose returned first column scores negative (D2); lengths 1 (always inside D1 when a positive alignment exists)
 // assumes: see vfSWMask
 func H_C09_sw_mm_masked() {
-	l1, l2 := vfSWLengths(2, 3)
-	assume(l1 >= 2 && l2 >= 2)
+	l1 := nondetRange(2, 3)
+	l2 := nondetRange(2, 3)
 	sc := vfSWSymScheme()
 	s1, s2 := vfSWSymPair(sc.mode, l1, l2)
 	vfSWCheck(sc, s1, s2, true, false, true)
+}
+
+// H_C09_sw_mm4_masked: as H_C09_sw_mm_masked for the length pairs with max(l1,l2)=4.
+// bounds: lengths l1,l2 in 2..4 with max 4
+// outside: as H_C09_sw_mm_masked; lengths >4
+// assumes: see vfSWMask
+//verif: tier=thorough
+func H_C09_sw_mm4_masked() {
+	l1 := nondetRange(2, 4)
+	l2 := nondetRange(2, 4)
+	assume(l1 == 4 || l2 == 4)
+	sc := vfSWSymScheme()
+	s1, s2 := vfSWSymPair(sc.mode, l1, l2)
+	vfSWCheck(sc, s1, s2, true, false, true)
+}
+
+// vfSWGrid: concrete match/mismatch schemes (cheaper than symbolic parameters at length 4).
+//
+//	0: 7/-6, gaps -2/-0.5   (gapopen < 2*gapextend and match+gapopen > 0: region of defect D3)
+//	1: 2/-1, gaps -1/-1     (linear gap cost)
+//	2: 5/-4, gaps -10/-0.5  (EMBOSS water defaults on a 5/-4 matrix)
+//	3: 1/-1, gaps -1.5/-0.5
+var vfSWGrid = [4]vfSWScheme{
+	{mode: vfSWModeMM, match: 7, mismatch: -6, open: -2, ext: -0.5},
+	{mode: vfSWModeMM, match: 2, mismatch: -1, open: -1, ext: -1},
+	{mode: vfSWModeMM, match: 5, mismatch: -4, open: -10, ext: -0.5},
+	{mode: vfSWModeMM, match: 1, mismatch: -1, open: -1.5, ext: -0.5},
+}
+
+// H_C09_sw_mm_grid: lengths 3x4 and 4x3 with one concrete scheme (7/-6, gaps -2/-0.5), all claims of C09.
+// bounds: (l1,l2) in {(3,4),(4,3)}; residues symbolic over {A,C,G,T,R,Y,K,M}; scheme 0 of vfSWGrid
+// outside: other schemes at these lengths (H_C09_sw_mm4, H_C09_sw_mm_grid4); lengths >4
+// assumes: Gotoh reference (validated for lengths <=2)
+func H_C09_sw_mm_grid() {
+	l1 := nondetRange(3, 4)
+	l2 := 7 - l1
+	sc := vfSWGrid[0]
+	s1, s2 := vfSWSymPair(sc.mode, l1, l2)
+	vfSWCheck(sc, s1, s2, true, false, false)
+}
+
+// H_C09_sw_mm_grid4: all length pairs with max(l1,l2)=4 on the four concrete schemes of vfSWGrid.
+// bounds: lengths l1,l2 in 1..4 with max 4; residues symbolic over {A,C,G,T,R,Y,K,M}; schemes vfSWGrid[0..3]
+// outside: lengths >4
+//verif: tier=thorough
+func H_C09_sw_mm_grid4() {
+	k := nondetRange(0, 3)
+	l1, l2 := vfSWLengths(4, 4)
+	sc := vfSWGrid[k]
+	s1, s2 := vfSWSymPair(sc.mode, l1, l2)
+	vfSWCheck(sc, s1, s2, true, false, false)
 }
 
 // ---------------------------------------------------------------- built-in matrices, symbolic gap penalties
@@ -547,66 +598,103 @@ func H_C09_sw_dnafull4() {
 }
 
 // H_C09_sw_blosum: built-in BLOSUM62 matrix (selected by the alphabet detection), symbolic gap penalties, all claims of C09.
-// bounds: lengths l1,l2 in 1..3; residues symbolic over {W,E,I,L,F}, not all of them W; gapopen<=gapextend<0 any multiples of 1/2 in [-8,0); enumeration cross-check for lengths <=2
-// outside: lengths >3 (H_C09_sw_blosum4); the other 19 BLOSUM62 letters; two all-W sequences (detected as nucleotides); lower case
+// bounds: lengths l1,l2 in 1..2; residues symbolic over {W,E,I,L,F}, not all of them W; gapopen<=gapextend<0 any multiples of 1/2 in [-8,0); enumeration cross-check
+// outside: lengths >2 (H_C09_sw_blosum3, H_C09_sw_blosum4); the other 19 BLOSUM62 letters; two all-W sequences (detected as nucleotides); lower case
 // assumes: reference substitution scores from the published BLOSUM62
 func H_C09_sw_blosum() {
-	l1, l2 := vfSWLengths(1, 3)
+	l1, l2 := vfSWLengths(1, 2)
 	sc := vfSWMatrixScheme(vfSWModeBlosum)
 	s1, s2 := vfSWSymPair(sc.mode, l1, l2)
-	vfSWCheck(sc, s1, s2, true, l1 <= 2 && l2 <= 2, false)
+	vfSWCheck(sc, s1, s2, true, true, false)
 }
 
-// H_C09_sw_blosum4: as H_C09_sw_blosum for the length pairs with max(l1,l2)=4.
-// bounds: lengths l1,l2 in 1..4 with max 4
-// outside: lengths >4
+// H_C09_sw_blosum3: as H_C09_sw_blosum for the length pairs with max(l1,l2)=3.
+// bounds: lengths l1,l2 in 1..3 with max 3
+// outside: lengths >3
 //verif: tier=thorough
-func H_C09_sw_blosum4() {
-	l1, l2 := vfSWLengths(4, 4)
+func H_C09_sw_blosum3() {
+	l1, l2 := vfSWLengths(3, 3)
 	sc := vfSWMatrixScheme(vfSWModeBlosum)
 	s1, s2 := vfSWSymPair(sc.mode, l1, l2)
 	vfSWCheck(sc, s1, s2, true, false, false)
 }
 
-// H_C09_sw_matrix_masked: built-in matrices outside the regions of the known defects D1-D3 (see vfSWMask).
-// bounds: lengths l1,l2 in 2..3; mode EDNAFULL over {A,C,G,T,N} or BLOSUM62 over {W,E,I,L,F}; symbolic gap penalties as above
+// H_C09_sw_blosum4: as H_C09_sw_blosum for the length pairs (1,4) (2,4) (4,1) (4,2).
+// bounds: one length 4, the other in 1..2
+// outside: (3,4) (4,3) (4,4) with symbolic gap penalties (too slow with the 24x24 table: BLOSUM62 at these lengths is covered with the default penalties by H_C09_sw_defaults4); lengths >4
+//verif: tier=thorough
+func H_C09_sw_blosum4() {
+	l1, l2 := vfSWLengths(4, 4)
+	assume(l1 <= 2 || l2 <= 2)
+	sc := vfSWMatrixScheme(vfSWModeBlosum)
+	s1, s2 := vfSWSymPair(sc.mode, l1, l2)
+	vfSWCheck(sc, s1, s2, true, false, false)
+}
+
+// H_C09_sw_dnafull_masked: EDNAFULL outside the regions of the known defects D1-D3 (see vfSWMask).
+// bounds: lengths l1,l2 in 2..3; residues over {A,C,G,T,N}; symbolic gap penalties as H_C09_sw_dnafull
+// outside: D1-D3 regions as in H_C09_sw_mm_masked (D3: gapopen < 2*gapextend together with best score of seq1[0] + gapopen > 0)
+// assumes: see vfSWMask
+func H_C09_sw_dnafull_masked() {
+	l1 := nondetRange(2, 3)
+	l2 := nondetRange(2, 3)
+	sc := vfSWMatrixScheme(vfSWModeDNAfull)
+	s1, s2 := vfSWSymPair(sc.mode, l1, l2)
+	vfSWCheck(sc, s1, s2, true, false, true)
+}
+
+// H_C09_sw_blosum_masked: BLOSUM62 outside the regions of the known defects D1-D3 (see vfSWMask).
+// bounds: lengths l1,l2 in 2..3; residues over {W,E,I,L,F}; symbolic gap penalties as H_C09_sw_blosum
 // outside: D1-D3 regions as in H_C09_sw_mm_masked
 // assumes: see vfSWMask
-func H_C09_sw_matrix_masked() {
-	mode := nondetRange(vfSWModeDNAfull, vfSWModeBlosum)
-	l1, l2 := vfSWLengths(2, 3)
-	assume(l1 >= 2 && l2 >= 2)
-	sc := vfSWMatrixScheme(mode)
+//verif: tier=thorough
+func H_C09_sw_blosum_masked() {
+	l1 := nondetRange(2, 3)
+	l2 := nondetRange(2, 3)
+	sc := vfSWMatrixScheme(vfSWModeBlosum)
 	s1, s2 := vfSWSymPair(sc.mode, l1, l2)
 	vfSWCheck(sc, s1, s2, true, false, true)
 }
 
 // ---------------------------------------------------------------- defaults
 
-// vfSWDefaults: the documented defaults of NewPwAligner: built-in matrix, gap open -10, gap extend -0.5.
+// vfSWDefaults: the defaults of NewPwAligner: built-in matrix, gap open -10, gap extend -0.5.
 func vfSWDefaults(mode int) vfSWScheme {
 	return vfSWScheme{mode: mode, open: -10, ext: -0.5}
 }
 
 // H_C09_sw_defaults: no Set* call at all: built-in matrix by alphabet detection, gap open -10, gap extend -0.5.
-// bounds: lengths l1,l2 in 1..3; EDNAFULL over {A,C,G,T,N} or BLOSUM62 over {W,E,I,L,F}
-// outside: lengths >3 (H_C09_sw_defaults4)
-// assumes: the default penalties are -10 / -0.5 (EMBOSS water defaults, cmd/sw.go flags)
+// bounds: lengths l1,l2 in 1..2; EDNAFULL over {A,C,G,T,N} or BLOSUM62 over {W,E,I,L,F} (not all W); enumeration cross-check
+// outside: lengths >2 (H_C09_sw_defaults3, H_C09_sw_defaults4)
+// assumes: the default penalties are -10 / -0.5 (EMBOSS water defaults, same as the flags of cmd/sw.go)
 func H_C09_sw_defaults() {
 	mode := nondetRange(vfSWModeDNAfull, vfSWModeBlosum)
-	l1, l2 := vfSWLengths(1, 3)
+	l1, l2 := vfSWLengths(1, 2)
 	sc := vfSWDefaults(mode)
 	s1, s2 := vfSWSymPair(sc.mode, l1, l2)
-	vfSWCheck(sc, s1, s2, false, l1 <= 2 && l2 <= 2, false)
+	vfSWCheck(sc, s1, s2, false, true, false)
 }
 
-// H_C09_sw_defaults4: as H_C09_sw_defaults for the length pairs with max(l1,l2)=4.
-// bounds: lengths l1,l2 in 1..4 with max 4
-// outside: lengths >4
+// H_C09_sw_defaults3: as H_C09_sw_defaults for the length pairs with max(l1,l2)=3.
+// bounds: lengths l1,l2 in 1..3 with max 3
+// outside: lengths >3
+//verif: tier=thorough
+func H_C09_sw_defaults3() {
+	mode := nondetRange(vfSWModeDNAfull, vfSWModeBlosum)
+	l1, l2 := vfSWLengths(3, 3)
+	sc := vfSWDefaults(mode)
+	s1, s2 := vfSWSymPair(sc.mode, l1, l2)
+	vfSWCheck(sc, s1, s2, false, false, false)
+}
+
+// H_C09_sw_defaults4: as H_C09_sw_defaults for the length pairs with max(l1,l2)=4 except (4,4) (BLOSUM62 with W/W=11 > 10 reaches defect D3 at 3x4).
+// bounds: lengths l1,l2 in 1..4 with max 4 and l1+l2 <= 7
+// outside: (4,4); lengths >4
 //verif: tier=thorough
 func H_C09_sw_defaults4() {
 	mode := nondetRange(vfSWModeDNAfull, vfSWModeBlosum)
 	l1, l2 := vfSWLengths(4, 4)
+	assume(l1+l2 <= 7)
 	sc := vfSWDefaults(mode)
 	s1, s2 := vfSWSymPair(sc.mode, l1, l2)
 	vfSWCheck(sc, s1, s2, false, false, false)
